@@ -19,6 +19,7 @@ type PropCfg struct {
 	Roots   []string // regexps: entry points whose reachable module functions form the function set (zero-annotation sweep)
 	Tagged  bool   // functions whose contract lists the property (plus the contract callees they rely on)
 	Passes  []string // dataflow passes
+	Scope   []string // if set: only reachable functions matching one of these regexps are claimed; the rest is listed as unverified
 	Explain string
 	Design  string
 }
@@ -32,9 +33,16 @@ var decodeRoots = []string{
 	`^imagetype\.(Scan|ScanBuf|ReadAt|Buf)$`, `^preview\.RenderPreview$`,
 }
 
+// c01Scope: the part of the decode call graph that is under contract so far (grown package by package; everything reachable
+// from the entry points but outside this list is reported in the evidence as unverified, never as proved).
+var c01Scope = []string{
+	`^(exif2|exif2/ifds|exif2/ifds/[a-z/]+|exif2/tag|tiff|png|imagetype|meta|meta/utils|meta/canon)\.`,
+	`^imagemeta\.(DecodeTiff|DecodeCR2|DecodeHeif|DecodePng)$`,
+}
+
 var propCfgs = map[string]*PropCfg{
-	"C01": {ID: "C01", Level: "proof", Safety: true, Roots: decodeRoots, Tagged: true, Design: "DESIGN.md 5 C01"},
-	"C02": {ID: "C02", Level: "proof", Variant: true, Roots: decodeRoots, Tagged: true, Design: "DESIGN.md 5 C02"},
+	"C01": {ID: "C01", Level: "proof", Safety: true, Roots: decodeRoots, Tagged: true, Scope: c01Scope, Design: "DESIGN.md 5 C01"},
+	"C02": {ID: "C02", Level: "proof", Variant: true, Roots: decodeRoots, Tagged: true, Scope: c01Scope, Design: "DESIGN.md 5 C02"},
 	"C03": {ID: "C03", Level: "proof", Tagged: true, Design: "DESIGN.md 5 C03"},
 	"C04": {ID: "C04", Level: "proof", Tagged: true, Passes: []string{"pool-escape", "globals"}, Design: "DESIGN.md 5 C04"},
 	"C05": {ID: "C05", Level: "other", Tagged: true, Passes: []string{"globals", "locks"}, Design: "DESIGN.md 5 C05"},
